@@ -932,12 +932,45 @@ def c15_oracle(sc):
     gstate, gpayload = 0, None
     abrupt = False
     goaways_written = []
+    h_sid = {}                 # handle -> stream id (locally initiated requests)
+    cut = None                 # lowest last-stream id among the peer's GOAWAYs that have been CONSUMED (fed, then polled healthily)
+    pending_cut = []           # (step fed, last) not yet consumed
+    probes = []                # (step fed, payload) of PINGs fed after a not-yet-consumed GOAWAY
+    answered = set()           # handles whose response head has been delivered
     for st in sc["trace"]:
         op = st["op"]
         o = op.get("op")
         res = st["res"]
         if isinstance(res, dict) and "panic" in res and any(t in res["panic"] for t in CONTROL_ASSERTS):
             return {"class": panic_class(res["panic"]), "step": st["i"], "why": "an assertion of the control plane fired", "panic": res["panic"]}
+        # "locally initiated streams above the peer's last-stream id fail": once a GOAWAY(L) of the peer has been consumed, a
+        # response future of a request with id > L cannot stay pending (every GOAWAY counts, also a later one that lowers L)
+        if o == "send_request" and isinstance(res, dict) and "sid" in res and "h" in res:
+            h_sid[res["h"]] = res["sid"]
+        if o == "poll_response" and isinstance(res, dict) and ("status" in res or "fields" in res):
+            answered.add(op.get("h"))
+        if o == "peer" and isinstance(op.get("what"), dict) and op["what"].get("t") == "GOAWAY" and clean:
+            pending_cut.append((st["i"], op["what"]["last"] & 0x7fffffff))
+        # a GOAWAY has certainly been processed once the endpoint has answered a PING that was fed AFTER it (frames are
+        # taken in order; with blocked writes the read side may lag behind what the transport has delivered)
+        if o == "peer" and isinstance(op.get("what"), dict) and op["what"].get("t") == "PING" and not op["what"].get("ack") and pending_cut:
+            probes.append((st["i"], list(op["what"].get("payload") or [])))
+        for f in st["out"]:
+            if f["t"] == "PING" and f.get("ack") and probes:
+                pl = list(f.get("payload") or [])
+                hit = [ps for (ps, pp) in probes if pp == pl]
+                if hit:
+                    upto = min(hit)
+                    for (gs, l) in pending_cut:
+                        if gs < upto:
+                            cut = l if cut is None else min(cut, l)
+                    pending_cut = [(gs, l) for (gs, l) in pending_cut if gs >= upto]
+                    probes = [(ps, pp) for (ps, pp) in probes if ps > upto]
+        if client and clean and cut is not None and o == "poll_response" and res == "Pending" and op.get("h") in h_sid \
+                and h_sid[op["h"]] > cut and op.get("h") not in answered:
+            return {"class": "stream-above-goaway-not-failed", "step": st["i"],
+                    "why": "a request above the peer's GOAWAY last-stream id is still pending after the GOAWAY was processed",
+                    "sid": h_sid[op["h"]], "last_stream_id": cut}
         if o == "peer":
             w = op.get("what")
             if not (isinstance(w, dict) and "t" in w):
